@@ -318,7 +318,8 @@ def _c17(m, tier, seed, rundir, extra):
 PLANS['C17'] = {
     'level': 'exploration',
     'rule': ('generated values of all 40 Variant types (boundary pools; finite floats for JSON) through serde_json to_string/from_str, from_slice, from_reader, to_value/from_value, '
-             'bincode, MessagePack compact and named: decoded value must be bit-identical (canonical dump); Ref and UniqueId through Display/FromStr (boundaries incl. negative random parts + random); '
+             'bincode, MessagePack compact and named: decoded value must be bit-identical (canonical dump); fault injection: each JSON-capable value is also serialized into sinks that fail after k bytes '
+             '(5 cut points; also bincode / MessagePack) and parsed from inputs cut at k: the failing call must report the error, and the next ordinary call on the same thread must give exactly what it gave before; Ref and UniqueId through Display/FromStr (boundaries incl. negative random parts + random); '
              'exhaustive small domains: all 65536 BrickColor numbers (number, name, serde), all 256 Faces/Axes raw bytes through the compact encodings (valid ones round-trip, invalid ones are errors); '
              'Tags and MaterialColors blob laws; every sample of rbx_dom_lua/src/allValues.json decodes (from text and from a serde_json::Value) to its stated type and re-encodes to the same JSON; '
              'non-trivial = every generated value; distinct = digest of (type, canonical value)'),
@@ -362,7 +363,8 @@ def _c14(m, tier, seed, rundir, extra):
 PLANS['C14'] = {
     'level': 'exploration',
     'rule': ('generated attribute maps (0-40 entries, names incl. empty/multi-byte, all 19 types, every rotation id and BrickColor cycled, sequences of 0..4097 keypoints): '
-             '(a) to_writer -> from_reader equals the source under the documented normalisations (String->BinaryString, rotation rule from the docs table); '
+             '(a) to_writer -> from_reader equals the source under the documented normalisations (String->BinaryString, rotation rule from the docs table), and to_writer gives the same bytes through a write()-only writer, '
+             'a writer taking 1-7 bytes per call and a small BufWriter as into a Vec; '
              '(b) refattr.py, an independent decoder written from docs/attributes.md, reads the written bytes to the same map; '
              '(c) blobs built by the independent encoder (entry order shuffled, axis-aligned rotations in long form, non-0/1 Bool bytes) decode to the map they describe; '
              '(d) a file holding three instances of one class (a longer map, the map under test, an empty map): every PROP string in the binary file (refbin.py) and every base64 payload in the XML file (refxml.py) '
